@@ -134,4 +134,88 @@ theorem values_rt (p : Param) (h : RecOK p) (p0 : Param) (hp0 : p0.ints = [] ∧
       have : ((p.floats.map f32le).flatten).length = 4 * p.floats.length := C03.flatten_map_len f32le 4 (fun _ => rfl) _
       simp [hp0.1, hp0.2.2, this]
 
+/-! ### the initial counts of the size check -/
+
+theorem any_zero_iff (dims : List Nat) : dims.any (· == 0) = true ↔ dims.prod = 0 := by
+  induction dims with
+  | nil => simp
+  | cons d t ih =>
+    simp only [List.any_cons, Bool.or_eq_true, beq_iff_eq, List.prod_cons, Nat.mul_eq_zero, ih]
+
+theorem enum_any_zero_iff (fil : Bool) (dims : List Nat) : ∀ i,
+    ((List.range' i dims.length).zip dims).any (fun (x : Nat × Nat) => x.2 == 0 && (decide (x.1 > 0) || !fil)) = true
+      ↔ countedProd fil i dims = 0 := by
+  induction dims with
+  | nil => intro i; simp [countedProd]
+  | cons d t ih =>
+    intro i
+    simp only [List.length_cons, List.range'_succ, List.zip_cons_cons, List.any_cons, Bool.or_eq_true, countedProd,
+      Nat.mul_eq_zero, ih (i + 1)]
+    apply or_congr_left
+    cases fil <;> by_cases hi : i > 0 <;> simp [hi]
+
+theorem all_pos_of_prod_ne_zero (l : List Nat) (h : l.prod ≠ 0) : ∀ d ∈ l, 1 ≤ d := by
+  induction l with
+  | nil => intro d hd; cases hd
+  | cons a t ih =>
+    simp only [List.prod_cons, ne_eq, Nat.mul_eq_zero, not_or] at h
+    intro d hd
+    rcases List.mem_cons.mp hd with rfl | hd
+    · omega
+    · exact ih h.2 d hd
+
+theorem countedProd_eq_prod_countedDims (fil : Bool) (dims : List Nat) :
+    countedProd fil 0 dims = (countedDims fil 0 dims).prod := by
+  unfold countedDims
+  cases dims with
+  | nil => cases fil <;> simp [countedProd]
+  | cons d t =>
+    cases fil
+    · simp [countedProd_false]
+    · simp [countedProd, countedProd_succ]
+
+/-- the size check passes on a record whose values are in the file, and yields the number of values -/
+theorem sizeOk_record (p : Param) (rem : Nat) (hrem : rem + 0xFFFF < two64) (hb : p.type.size * p.dims.prod ≤ rem)
+    (hv : p.nValues ≤ 0xFFFF) :
+    sizeOk rem p.fil p.dims 0 (if p.dims.any (· == 0) then 0 else p.type.size)
+      (if (enum p.dims).any (fun (x : Nat × Nat) => x.2 == 0 && (decide (x.1 > 0) || !p.fil)) then 0 else 1)
+      = some p.nValues := by
+  have hz1 := any_zero_iff p.dims
+  have hz2 := enum_any_zero_iff p.fil p.dims 0
+  unfold enum
+  rw [List.range_eq_range']
+  by_cases h1 : p.dims.prod = 0
+  · have a1 : p.dims.any (· == 0) = true := hz1.mpr h1
+    rw [a1]; simp only [if_true]
+    by_cases h2 : countedProd p.fil 0 p.dims = 0
+    · rw [hz2.mpr h2]; simp only [if_true]
+      rw [sizeOk_ok rem p.fil hrem p.dims 0 0 0 (.inl rfl) (.inl rfl) (by simp) (by simp)]
+      simp [Param.nValues, h2]
+    · have a2 : ((List.range' 0 p.dims.length).zip p.dims).any (fun (x : Nat × Nat) => x.2 == 0 && (decide (x.1 > 0) || !p.fil)) = false := by
+        cases hh : ((List.range' 0 p.dims.length).zip p.dims).any (fun (x : Nat × Nat) => x.2 == 0 && (decide (x.1 > 0) || !p.fil))
+        · rfl
+        · exact absurd (hz2.mp hh) h2
+      rw [a2]; simp only [Bool.false_eq_true, if_false]
+      rw [countedProd_eq_prod_countedDims] at h2
+      rw [sizeOk_ok rem p.fil hrem p.dims 0 0 1 (.inl rfl) (.inr (all_pos_of_prod_ne_zero _ h2)) (by simp)
+        (by simp only [Nat.one_mul]; unfold Param.nValues at hv; omega)]
+      simp [Param.nValues]
+  · have a1 : p.dims.any (· == 0) = false := by
+      cases hh : p.dims.any (· == 0)
+      · rfl
+      · exact absurd (hz1.mp hh) h1
+    rw [a1]; simp only [Bool.false_eq_true, if_false]
+    have hall := all_pos_of_prod_ne_zero p.dims h1
+    have h2 : countedProd p.fil 0 p.dims ≠ 0 := by
+      have := countedProd_pos p.fil p.dims 0 hall; omega
+    have a2 : ((List.range' 0 p.dims.length).zip p.dims).any (fun (x : Nat × Nat) => x.2 == 0 && (decide (x.1 > 0) || !p.fil)) = false := by
+      cases hh : ((List.range' 0 p.dims.length).zip p.dims).any (fun (x : Nat × Nat) => x.2 == 0 && (decide (x.1 > 0) || !p.fil))
+      · rfl
+      · exact absurd (hz2.mp hh) h2
+    rw [a2]; simp only [Bool.false_eq_true, if_false]
+    rw [sizeOk_ok rem p.fil hrem p.dims 0 p.type.size 1 (.inr hall)
+      (.inr (fun d hd => hall d (by unfold countedDims at hd; split at hd; exact List.mem_of_mem_drop hd; exact hd))) hb
+      (by simp only [Nat.one_mul]; unfold Param.nValues at hv; omega)]
+    simp [Param.nValues]
+
 end Ezc3d
